@@ -772,8 +772,10 @@ class Gen(object):
             return v
         if self.matchable(vty) and vty[0] not in ("Void",) and r.chance(2, 3):
             clauses = self.gen_clauses(vty)
-            self.feat("when")
-            return G.When(v, [(alts, self.expr(ty, sc.extend(binds), d - 1)) for alts, binds in clauses], ty)
+            w = G.When(v, [(alts, self.expr(ty, sc.extend(binds), d - 1)) for alts, binds in clauses], ty)
+            if A.strict_occ(name, w):
+                self.feat("when")
+                return w
         if self.eqable(vty):
             cond = G.Bin(self.rng.pick(["==", "!="]), v, self.expr(vty, sc, max(d - 2, 0)), BOOL)
             self.feat("eq:" + vty[0])
@@ -928,7 +930,7 @@ class Gen(object):
         if ch == "and":
             self.feat("op:&&")
             l, rr = self.expr(BOOL, sc, d - 1), self.expr(BOOL, sc, d - 1)
-            if rr.K == "Lit" and rr.val is False and A.may_abort(l):
+            if rr.K == "Lit" and rr.val is False:
                 # FINDINGS.md F6: `x && False` is rewritten to False without evaluating x
                 if self.opts.get("include_known"):
                     self.feat("known:F6_and_false")
@@ -947,7 +949,7 @@ class Gen(object):
             es = [self.expr(BOOL, sc, d - 1) for _ in range(r.range(2, 3))]
             if kind == "and" and not self.opts.get("include_known"):
                 for i in range(1, len(es)):
-                    if es[i].K == "Lit" and es[i].val is False and any(A.may_abort(x) for x in es[:i]):
+                    if es[i].K == "Lit" and es[i].val is False:
                         es[i] = G.Lit(True, None, BOOL)
             return G.Chain(kind, es, BOOL)
         self.feat("trace_if_false")
